@@ -1340,3 +1340,191 @@ def bundle_roundtrip(doc):
         return '; '.join(bad[:4]) or None
 
     return _run(main())
+
+
+# ---------------------------------------------------------------------------------------------------- C10 / C06
+def _barrier_chain():
+    import plumpy
+    from plumpy.workchains import WorkChain
+
+    class BarrierChain(WorkChain):
+        futs = {}
+        log = []
+
+        @classmethod
+        def define(cls, spec):
+            super().define(spec)
+            spec.outline(cls.a, cls.b)
+
+        def a(self):
+            cls = type(self)
+            cls.futs = {k: plumpy.Future() for k in cls.keys}
+            cls.log.append('a')
+            if cls.via_return:
+                return plumpy.ToContext(**cls.futs)
+            self.to_context(**cls.futs)
+
+        def b(self):
+            cls = type(self)
+            cls.log.append(('b', {k: (f.done(), self.ctx.get(k)) for k, f in cls.futs.items()}))
+
+    return BarrierChain
+
+
+async def _settle(n=30):
+    for _ in range(n):
+        await asyncio.sleep(0)
+
+
+def context_barrier(doc):
+    """bounded search: 1..3 awaited futures, every completion order, success/failure, ToContext vs to_context(): the next
+    step starts only after ALL completed and finds every result; a failure ends the chain EXCEPTED with that error"""
+    import itertools
+
+    async def main():
+        base = _barrier_chain()
+        for n, via_return, mode in itertools.product([1, 2, 3], [False, True], ['spread', 'same-iteration', 'done-before-the-wait', 'while-paused']):
+            keys = ['k%d' % i for i in range(n)]
+            for order in itertools.permutations(range(n)):
+                for failing in [None] + list(range(n)):
+                    if mode != 'spread':
+                        r = await other_modes(base, n, via_return, mode, keys, order, failing)
+                        if r:
+                            return r
+                        continue
+                    cls = type('BC', (base,), {'keys': keys, 'via_return': via_return, 'futs': {}, 'log': []})
+                    errs = []
+                    asyncio.get_event_loop().set_exception_handler(lambda l, c: errs.append(repr(c.get('exception'))))
+                    wc = cls()
+                    task = asyncio.ensure_future(wc.step_until_terminated())
+                    await _settle()
+                    where = f'{n} awaited ({"ToContext" if via_return else "to_context"}), completion order {order}, failing {failing}'
+                    early = []
+                    for j, i in enumerate(order):
+                        if any(isinstance(e, tuple) for e in cls.log) and j < n and failing is None:
+                            early.append(j)
+                        f = cls.futs[keys[i]]
+                        if failing == i:
+                            f.set_exception(RuntimeError('item %d failed' % i))
+                        else:
+                            f.set_result(100 + i)
+                        await _settle()
+                    await _settle()
+                    task.cancel()
+                    if early:
+                        return f'{where}: the next step started before completion number(s) {early}'
+                    if errs:
+                        return f'{where}: exception reported to the event loop: {errs}'
+                    if failing is None:
+                        want = ('b', {k: (True, 100 + i) for i, k in enumerate(keys)})
+                        if wc.state.name != 'FINISHED' or cls.log != ['a', want]:
+                            return f'{where}: state {wc.state.name}, steps {cls.log}; expected FINISHED with {want}'
+                    else:
+                        ran_b = any(isinstance(e, tuple) for e in cls.log)
+                        first_fail_pos = order.index(failing)
+                        if wc.state.name != 'EXCEPTED' or ran_b or 'item %d failed' % failing not in str(wc.exception()):
+                            return (f'{where}: state {wc.state.name} exception {wc.exception() if wc.state.name == "EXCEPTED" else None!r}, '
+                                    f'next step ran: {ran_b}; expected EXCEPTED with the error of the item and no further step')
+        return None
+
+    return _run(main())
+
+
+async def other_modes(base, n, via_return, mode, keys, order, failing):
+    """completions in ONE loop iteration / items already completed when the wait begins / completions while paused"""
+    import plumpy
+    cls = type('BC', (base,), {'keys': keys, 'via_return': via_return, 'futs': {}, 'log': []})
+    errs = []
+    asyncio.get_event_loop().set_exception_handler(lambda l, c: errs.append(repr(c.get('exception'))))
+
+    def complete(i):
+        f = cls.futs[keys[i]]
+        if failing == i:
+            f.set_exception(RuntimeError('item %d failed' % i))
+        else:
+            f.set_result(100 + i)
+
+    where = f'{n} awaited ({"ToContext" if via_return else "to_context"}), mode {mode}, completion order {order}, failing {failing}'
+    if mode == 'done-before-the-wait':
+        orig_a = cls.a
+
+        def a(self):
+            r = orig_a(self)
+            for i in order:
+                complete(i)
+            return r
+        cls.a = a
+    wc = cls()
+    task = asyncio.ensure_future(wc.step_until_terminated())
+    await _settle()
+    if mode == 'same-iteration':
+        for i in order:
+            complete(i)
+    elif mode == 'while-paused':
+        wc.pause()
+        await _settle()
+        for i in order:
+            complete(i)
+            await _settle(3)
+        await _settle()
+        if any(isinstance(e, tuple) for e in cls.log):
+            task.cancel()
+            return f'{where}: the next step ran while the workchain was paused'
+        wc.play()
+    await _settle(60)
+    task.cancel()
+    ran_b = any(isinstance(e, tuple) for e in cls.log)
+    if failing is None:
+        want = ('b', {k: (True, 100 + i) for i, k in enumerate(keys)})
+        if wc.state.name != 'FINISHED' or cls.log != ['a', want]:
+            return f'{where}: state {wc.state.name}, steps {cls.log}, loop saw {errs}; expected FINISHED with {want}'
+    else:
+        if wc.state.name != 'EXCEPTED' or ran_b or 'item %d failed' % failing not in str(wc.exception()):
+            return (f'{where}: state {wc.state.name} exception {wc.exception() if wc.state.name == "EXCEPTED" else None!r}, next step ran: '
+                    f'{ran_b}, loop saw {errs}; expected EXCEPTED with the error of the item and no further step')
+    return None
+
+
+def wakeup_lost_to_pause(doc):
+    """the last awaited future completes, then pause() arrives in the same loop iteration (before the completion callback ran);
+    after play() the workchain must continue"""
+    async def main():
+        cls = type('BC', (_barrier_chain(),), {'keys': ['x'], 'via_return': False, 'futs': {}, 'log': []})
+        errs = []
+        asyncio.get_event_loop().set_exception_handler(lambda l, c: errs.append(repr(c.get('exception'))))
+        wc = cls()
+        task = asyncio.ensure_future(wc.step_until_terminated())
+        await _settle()
+        cls.futs['x'].set_result(5)
+        wc.pause()
+        await _settle()
+        wc.play()
+        await _settle()
+        stuck = wc.state.name == 'WAITING'
+        task.cancel()
+        if stuck:
+            return (f'awaited future completed, pause() in the same iteration, play(): the workchain stays WAITING forever '
+                    f'(loop saw {errs}); ctx {dict(vars(wc.ctx))}')
+        return None
+
+    return _run(main())
+
+
+def cancelled_awaitable(doc):
+    """an awaited future is cancelled: the workchain must not stay WAITING forever"""
+    async def main():
+        cls = type('BC', (_barrier_chain(),), {'keys': ['x'], 'via_return': False, 'futs': {}, 'log': []})
+        errs = []
+        asyncio.get_event_loop().set_exception_handler(lambda l, c: errs.append(repr(c.get('exception'))))
+        wc = cls()
+        task = asyncio.ensure_future(wc.step_until_terminated())
+        await _settle()
+        cls.futs['x'].cancel()
+        await _settle()
+        stuck = wc.state.name == 'WAITING'
+        task.cancel()
+        if stuck:
+            return f'awaited future cancelled: the workchain stays WAITING forever; the event loop saw {errs}'
+        return None
+
+    return _run(main())
